@@ -1,5 +1,6 @@
 #!/bin/bash
-# seed_all.sh [tier] : run every stored seeded change against the check of the property it breaks.
+# seed_all.sh [tier] : run every stored seeded change against the check of the property it breaks
+# (SEED_FILTER=<regex on the id> restricts the set; VERIF_SEED selects the generators' seed).
 # Prints one line per change: DETECTED / MISSED. /repo is restored after each.
 V=$(cd "$(dirname "$0")/.." && pwd); R=${VERIF_REPO:-/repo}
 cd "$V"
@@ -7,6 +8,7 @@ export VERIF_EVIDENCE_DIR=$V/.build/seed-evidence
 TIER=${1:-quick}
 for d in seeded/*/; do
   id=$(basename "$d"); case "$id" in *-dropped) continue;; esac; prop=${id%-*}
+  if [ -n "$SEED_FILTER" ] && ! echo "$id" | grep -Eq "$SEED_FILTER"; then continue; fi
   if ! git -C "$R" apply --check "$V/$d/patch.diff" 2>/dev/null; then echo "$id: PATCH-DOES-NOT-APPLY"; continue; fi
   git -C "$R" apply "$V/$d/patch.diff"
   out=$(./check "$prop" "$TIER" 2>&1)
